@@ -98,7 +98,8 @@ reference_step (machine_t *b, const sim_op_t *op, int ret)
 	int x = (int)sim_clamp (AA (1), 0, s->w), y = (int)sim_clamp (AA (2), 0, s->h);
 	int w = (int)sim_clamp (AA (3), 0, s->w - x), h = (int)sim_clamp (AA (4), 0, s->h - y);
 	uint8_t *row0 = (uint8_t *)pixman_image_get_data (s->img);
-	if (ret) ref_fill (row0, s->stride, bpp, x, y, w, h, (uint32_t)AA (5));
+	/* raw bits of a float image are not something a 32-bit filler can express */
+	if (ret && bpp <= 32) ref_fill (row0, s->stride, bpp, x, y, w, h, (uint32_t)AA (5));
 	break;
     }
     case MOP_BLT:
@@ -225,7 +226,7 @@ chain_thread (void *p)
 		cr->pre[j] = pre;
 	    }
 	}
-	if (sim_verbose && getenv ("PXSIM_DUMP_CHAINS") && st.executed && st.is_draw && PIXMAN_FORMAT_BPP (m->img[st.dst_slot].fmt) == 32 &&
+	if (sim_verbose && getenv ("PXSIM_DUMP_CHAINS") && st.executed && st.is_draw && PIXMAN_FORMAT_BPP (m->img[st.dst_slot].fmt) >= 32 &&
 	    (cr->chain == REF_CHAIN || cr->chain == atoi (getenv ("PXSIM_DUMP_CHAINS"))))
 	{
 	    int x, y;
